@@ -24,7 +24,7 @@ for pid in claimed:
         "evidence_file": "evidence/%s.json" % pid,
         "replay_cmd_template": "./check %s --replay {path}" % pid,
         "engine": "lean-rtcmodel",
-        "level_claimed": {"category": "proof", "text": text, "design_ref": "DESIGN.md §4 %s and §8 (as built)" % pid},
+        "level_claimed": {"category": "proof", "text": text, "design_ref": "DESIGN.md §9 '%s — as built' (= NOTES/%s.md); design-time plan in §4" % (pid, pid)},
         "level_note": c.get("level_note") or ("Trusted: Lean 4.33 kernel (+ propext, Classical.choice, Quot.sound), the constant translator, the correspondence harness and its oracles; the model is hand-written (modelled, not verified). " + " ".join(c.get("assumptions", []))[:1500]),
         "technique": c.get("technique") or "Lean 4 proof (induction/invariants/refinement) + checked model-code correspondence",
     })
